@@ -206,7 +206,7 @@ impl Check for Forwarder {
                         let tamper = if rng.chance(12) { *rng.pick(&[Tamper::Target, Tamper::Args, Tamper::Token, Tamper::Max, Tamper::Exp]) } else { Tamper::None };
                         Step::Forward { token, fee, max, exp_rel, arg: rng.below(1000) as u32, tamper, user_signs: !rng.chance(6), relayer: if rng.chance(90) { 1 } else { 3 }, relayer_signs: !rng.chance(5) }
                     }
-                    71..=80 if cfg.permissioned => Step::Allow { token, on: rng.chance(60), by_manager: !rng.chance(12) },
+                    71..=80 if cfg.permissioned => Step::Allow { token: rng.below(4) as usize, on: rng.chance(60), by_manager: !rng.chance(12) },
                     81..=85 => Step::SetTrap { on: rng.chance(50) },
                     _ => {
                         let ds: std::vec::Vec<u32> = m.allow.values().filter(|v| v.0 > 0 && v.1 >= m.now).map(|v| v.1).collect();
@@ -244,7 +244,8 @@ impl Check for Forwarder {
         let w = W::new(5, cfg.start_ledger, 16);
         let e = &w.e;
         let a = |i: usize| w.actors[i].clone();
-        let toks: std::vec::Vec<Address> = (0..2).map(|_| e.register(FeeTok, ())).collect();
+        // tokens 0 and 1 carry balances and fees; tokens 2 and 3 only populate the allow-list (swap-and-pop needs > 2 entries)
+        let toks: std::vec::Vec<Address> = (0..4).map(|_| e.register(FeeTok, ())).collect();
         let tc: std::vec::Vec<FeeTokClient> = toks.iter().map(|t| FeeTokClient::new(e, t)).collect();
         let tgt = e.register(Target, ());
         let tg = TargetClient::new(e, &tgt);
@@ -367,15 +368,25 @@ impl Check for Forwarder {
                 // allow-list: flags and stored enumeration
                 let (count, listed): (u32, std::vec::Vec<Address>) = e.as_contract(&fwd, || {
                     let c: u32 = e.storage().instance().get(&FeeAbstractionStorageKey::Count).unwrap_or(0);
-                    let v = (0..c).map(|k| e.storage().persistent().get::<_, Address>(&FeeAbstractionStorageKey::Token(k)).expect("gap in enumeration")).collect();
+                    let v = (0..c).filter_map(|k| e.storage().persistent().get::<_, Address>(&FeeAbstractionStorageKey::Token(k))).collect();
                     (c, v)
                 });
+                if listed.len() != count as usize {
+                    return Err(violation("allowlist.enum_gap_free", kind, i, format!("Count = {count} but only {} of the slots 0..Count hold a token after {s:?}", listed.len())));
+                }
+                // reverse mapping: the token stored at slot k maps back to k
+                for (k, t) in listed.iter().enumerate() {
+                    let back: Option<u32> = e.as_contract(&fwd, || e.storage().persistent().get(&FeeAbstractionStorageKey::TokenIndex(t.clone())));
+                    if back != Some(k as u32) {
+                        return Err(violation("allowlist.enum_gap_free", "reverse_index", i, format!("slot {k} holds a token whose TokenIndex is {back:?} after {s:?}")));
+                    }
+                }
                 let want: BTreeSet<Address> = m.allowed.iter().map(|t| toks[*t].clone()).collect();
                 let have: BTreeSet<Address> = listed.iter().cloned().collect();
                 if count as usize != want.len() || have != want || have.len() != listed.len() {
                     return Err(violation("allowlist.enum_gap_free", kind, i, format!("count {count}, listed {}, model {:?}", listed.len(), m.allowed)));
                 }
-                for t in 0..2 {
+                for t in 0..4 {
                     let flag = e.as_contract(&fwd, || stellar_fee_abstraction::is_allowed_fee_token(e, &toks[t]));
                     if flag != (m.allowed.is_empty() || m.allowed.contains(&t)) {
                         return Err(violation("allowlist.model_eq", kind, i, format!("is_allowed_fee_token({t}) = {flag}, model {:?}", m.allowed)));
